@@ -1578,3 +1578,20 @@ func (c *Ctx) ruleNonEmptySelection(rule string, fn *ssa.Function, sel *selectio
 	})
 	c.Check(rule, key+"#empty-is-error", !wrong, test.Pos(), "with no existing named rule the call must fail with an error")
 }
+
+// ruleOwnDc (P5): every rule execution receives rb.Dc of the function's own rb parameter.
+func (c *Ctx) ruleOwnDc(rule string, fns []*ssa.Function) {
+	for _, fn := range fns {
+		m := c.engModel(fn)
+		var rb *ssa.Parameter
+		for _, p := range fn.Params {
+			if isNamedPtr(p.Type(), pBuilder, "RuleBuilder") {
+				rb = p
+			}
+		}
+		for _, e := range m.execs {
+			base, ok := m.x.isFieldLoad(e.call.Call.Args[1], "RuleBuilder", "Dc")
+			c.Check(rule, e.key(), ok && rb != nil && m.x.Origin(base) == ssa.Value(rb), e.call.Pos(), "the rule must run against the data context of the rule builder passed to this call (got %s)", m.x.Describe(e.call.Call.Args[1]))
+		}
+	}
+}
